@@ -70,6 +70,16 @@ func (f *File) Write(b []byte) (n int, err error) {
 
 func (f *File) WriteString(s string) (n int, err error) { return f.Write([]byte(s)) }
 
+// ReadAt: reads are not I/O events (they change nothing on disk), but the fault injector may fail them.
+func (f *File) ReadAt(b []byte, off int64) (int, error) {
+	if iorec.Before != nil {
+		if err := iorec.Before("read", f.path, "", int64(len(b))); err != nil {
+			return 0, err
+		}
+	}
+	return f.File.ReadAt(b, off)
+}
+
 func (f *File) WriteAt(b []byte, off int64) (n int, err error) {
 	err = iorec.Do("writeat", f.path, "", off, int64(len(b)), func() error {
 		var e error
